@@ -51,6 +51,11 @@ fn writer(tier: &str) -> Vec<String> {
         v.push(format!("wtree:cap={}:end=n:depth={}:Fop=0:Fh=0:lens={}", cap, if thorough { 5 } else { 4 }, lens));
         v.push(format!("wtree:cap={}:end=n:depth=3:Fop=1:Fh=2:lens={}", cap, lens));
     }
+    // long fixed histories (not enumerated): accumulated state, counters, growth thresholds
+    for (cap, end) in [(512usize, "n"), (1432, "n"), (16, "n"), (8, "rn"), (64, "e"), (9000, "n")] {
+        v.push(format!("wlong:cap={}:end={}:n={}", cap, end, if thorough { 400_000 } else { 120_000 }));
+        v.push(format!("wlong:cap={}:end={}:n={}:fail=7", cap, end, if thorough { 200_000 } else { 70_000 }));
+    }
     // accessors must not write: stats() between emits on the socket sinks
     for sink in ["udp", "unix"] {
         v.push(format!("sock-buf:sink={}:cap=8:stats=1:depth={}", sink, if thorough { 4 } else { 3 }));
@@ -226,6 +231,14 @@ fn c08(tier: &str) -> Vec<String> {
             v.push(format!("queue:cap={}:script={}:prog=C0E0E1E0E1D0", cap, sc));
         }
     }
+    // four producers (one preemption): more threads than the usual two or three
+    for cap in ["u", "2"] {
+        v.push(format!("queue:cap={}:prog=SJW:prod=E,E,E,E:P=1", cap));
+        v.push(format!("queue:cap={}:script=p:prog=SJ:prod=E,E,E,ED:P=1", cap));
+    }
+    // a long run of one producer (default-ish schedules only): accumulated state in the worker
+    v.push("queue:cap=u:script=opoe:prog=".to_string() + &"E0".repeat(60) + "W:P=0");
+    v.push("queue:cap=3:prog=".to_string() + &"E0".repeat(40) + "QR:P=0");
     // concurrent producers
     let pb = if th { 3 } else { 2 };
     let prods: &[&str] = if th { &["E,E", "EE,E", "EE,ED", "ED,ED", "EE,EE", "E,E,E", "EED,E"] } else { &["E,E", "EE,E", "EE,ED", "ED,ED", "EE,EE"] };
